@@ -573,6 +573,13 @@ fn exec_iter(sc: &Scenario) -> Report {
         let mut exhausted = false;
         let ops = sc.threads.first().cloned().unwrap_or_default();
         if sc.mode == "stream" {
+            // (optionally a bar that was moved and abandoned before, as for iterators below)
+            let pre_fin = sc.c("pre_finished") == 1;
+            if pre_fin {
+                pb.set_position(3);
+                pb.abandon();
+                model = 3;
+            }
             let mut w = pb.wrap_stream(SimItems::new(sc.seed, n, sc.c("p_pending")));
             let mut t = SimItems::new(sc.seed, n, sc.c("p_pending"));
             let (waker, _wakes) = counting_waker();
@@ -604,7 +611,9 @@ fn exec_iter(sc: &Scenario) -> Report {
                             Poll::Ready(None) => {
                                 if !exhausted {
                                     exhausted = true;
-                                    model = expected_after_exhaustion(&sc, model);
+                                    if !pre_fin {
+                                        model = expected_after_exhaustion(&sc, model);
+                                    }
                                     r.probe("exhausted");
                                 }
                             }
@@ -613,7 +622,7 @@ fn exec_iter(sc: &Scenario) -> Report {
                     }
                 }
                 check_pos(&mut r, &pb, model, 0, &at);
-                if pb.is_finished() != exhausted {
+                if pb.is_finished() != (exhausted || pre_fin) {
                     r.violate("C17.finish_on_exhaustion", format!("{at}: is_finished() = {} but stream exhausted = {exhausted}", pb.is_finished()));
                 }
                 if r.violation.is_some() {
@@ -1321,7 +1330,7 @@ impl Check for C17 {
                 if mode == "iter" && rng.chance(1, 3) {
                     sc.set("consume_by_value", rng.range(1, 4));
                 }
-                if mode == "iter" && rng.chance(1, 6) {
+                if rng.chance(1, 6) {
                     sc.set("pre_finished", 1);
                 }
                 let mut ops = vec![];
